@@ -111,3 +111,12 @@ impl<PacketIdType: IsPacketId> GenericStore<PacketIdType> {
         self.map.values().cloned().collect()
     }
 }
+
+#[cfg(feature = "verif-hooks")]
+impl<PacketIdType: IsPacketId> Clone for GenericStore<PacketIdType> {
+    fn clone(&self) -> Self {
+        Self {
+            map: self.map.clone(),
+        }
+    }
+}
